@@ -74,6 +74,9 @@ def run(ctx):
     # READY parent as its effective parent, whenever ParentReady arrives relative to slice production
     from .. import producer as PR
     PR.run_model(ctx, "producer", relevant=PR.relevant_c02)
+    # the timeout schedule of a window (crashed-leader timeout, then one timeout per slot, one block time apart):
+    # rule of the protocol = what the real Votor's timers do on the paused clock, to the millisecond
+    V.run_timers(ctx)
     # 0. design level (AlpenglowAbs + leaders + asynchronous prefix, then timely network): progress for EVERY schedule
     run_progress_mc(ctx, "prog6_silent", [1] * 6, [5], [1], False, 4, 2, 5,
                     witnesses=["W_Judged", "W_GoalReached", "W_SkippedWindow"])
